@@ -53,7 +53,7 @@ void nmc_enumerate(const nmc::Tier& t, const nmc::Sink& emit) {
         for (long k = 1; k <= maxnew; k++) {
             long rd = d + k;
             nmc::each_arrangement((int)rd, (int)k, [&](const L& pos) {
-                if (k > 1 && !t.thorough() && !std::is_sorted(pos.begin(), pos.end())) return;
+                // (unsorted position lists are part of the quick tier too: seeded change m03d - an 'ascending' fast path that never compares the first pair - was only visible to the thorough tier)
                 nmc::each_sign_spelling(pos, rd, [&](const L& sp) { emit(Case("expand_dims", {s, sp})); });
             });
         }
